@@ -1,22 +1,53 @@
 #!/usr/bin/env python3
 """regenerate /verif/seeded/INDEX.md from seeded/*/meta.json"""
-import glob, json, os
-rows = []
+import glob, json, os, re
+
+rows, benign = [], []
 for f in sorted(glob.glob("/verif/seeded/*/meta.json")):
     m = json.load(open(f))
+    if m.get("benign"):
+        alarms = m.get("caught_by") or []
+        details = []
+        for p in alarms:
+            v = ((m.get("results") or {}).get(p, {}).get("violations") or [{}])[0]
+            details.append(f"{p}: {v.get('kind', '?')}" + (" (no failing input)" if v.get("kind") != "oracle" else f" oracle {v.get('oracle')}"))
+        notes = ""
+        np = os.path.join(os.path.dirname(f), "NOTES.md")
+        if os.path.exists(np):
+            txt = open(np).read()
+            mm = re.search(r"(?m)^(?!#)(\S.{20,})$", txt)
+            notes = (mm.group(1) if mm else "").strip()[:170]
+        files = re.findall(r"^\+\+\+ b/(\S+)", open(os.path.join(os.path.dirname(f), "patch.diff")).read(), re.M)
+        benign.append((m["id"], ", ".join(x.split("/")[-1] for x in files), str(len(m.get("results") or {})), ", ".join(details) or "none", m.get("round", "-"), notes))
+        continue
     tgt = m["breaks_property"]
-    r = m["results"].get(tgt, {})
+    r = (m.get("results") or {}).get(tgt, {})
     v = (r.get("violations") or [{}])[0]
     how = "-"
     if r.get("exit"):
-        how = (v.get("kind") or "?") + (": " + (v.get("oracle") or "") if v.get("oracle") else "") 
-    others = [p for p in m["caught_by"] if p != tgt]
+        how = (v.get("kind") or "?") + (": " + (v.get("oracle") or "") if v.get("oracle") else "")
+    others = [p for p in (m.get("caught_by") or []) if p != tgt]
     hist = m.get("history", [])
-    rows.append((m["id"], tgt, "yes" if m["target_check_caught_it"] else "**NO**", how, ", ".join(others) or "-", "; ".join(hist) or "-", (m.get("summary") or m.get("needs_to_manifest") or "").replace("\n", " ")[:160]))
-out = ["# Seeded changes", "", "Each directory holds `patch.diff`, the demonstration, `NOTES.md` (the author's description) and `meta.json` (what was run, what every check reported).",
-       "All were produced by sub-agents that saw only the property text and a scratch worktree; each was confirmed (patch applies, 33 baseline tests pass with it, demonstration fails with it and passes without it).", "",
-       "| id | breaks | caught by its own check | how (first violation) | also caught by | history | what it needs |", "|---|---|---|---|---|---|---|"]
+    rows.append((m["id"], tgt, "yes" if m.get("target_check_caught_it") else "**NO**", how, ", ".join(others) or "-", m.get("round", "-"),
+                 "; ".join(hist) or "-", (m.get("summary") or m.get("needs_to_manifest") or "").replace("\n", " ").replace("|", "/")[:160]))
+
+out = ["# Seeded changes", "",
+       "Each directory holds `patch.diff`, the demonstration (breaking changes), `NOTES.md` (the author's description) and `meta.json` (what was run, what every check reported).",
+       "All were produced by sub-agents that saw only property text and a scratch worktree — nothing from `/verif`; each breaking change was confirmed (patch applies, 33 baseline tests pass with it, "
+       "demonstration fails with it and passes without it). `m1, m2` = wave 1, `m3, m4` = wave 2, `m5, m6` = wave 3; `B<k>-b<i>` = harmless maintenance changes (every property still holds).", "",
+       "## Breaking changes", "",
+       "| id | breaks | caught by its own check | how (first violation) | also caught by (checks run in the latest round) | latest round | history | what it needs |", "|---|---|---|---|---|---|---|---|"]
 for r in rows:
     out.append("| " + " | ".join(r) + " |")
+missed = [r[0] for r in rows if r[2] != "yes"]
+with_input = sum(1 for r in rows if r[3].startswith("oracle"))
+out += ["", f"{len(rows)} breaking changes; caught by the property's own check: {len(rows) - len(missed)}; of those with a concrete failing input: {with_input}; missed: {missed or 'none'}", ""]
+out += ["## Harmless changes", "",
+        "Every one of the twenty quick checks is run against each harmless change; an alarm here is a false alarm (or, for `no failing input`, the prescribed report of an obligation that no longer checks although the property holds).", "",
+        "| id | file | checks run | alarms | round | what the change is |", "|---|---|---|---|---|---|"]
+for b in benign:
+    out.append("| " + " | ".join(b) + " |")
+na = sum(1 for b in benign if b[3] != "none")
+out += ["", f"{len(benign)} harmless changes; with at least one alarm: {na}", ""]
 open("/verif/seeded/INDEX.md", "w").write("\n".join(out) + "\n")
-print(f"{len(rows)} seeded changes; missed by own check: {[r[0] for r in rows if r[2] != 'yes']}")
+print(f"{len(rows)} breaking changes; missed by own check: {missed}; harmless: {len(benign)}, with alarms: {na}")
